@@ -540,8 +540,9 @@ func init() {
 // id restrictions of very different sizes one after the other (the restriction object is pooled and reused):
 // twelve vectors, a first search restricted to 9..11 ids (some unknown), then one restricted to 1..3 ids, then a
 // large one again — every answer is exact for ITS OWN restriction (sound for hnsw)
-func H_C02_filter_reuse() {
-	kind := vChoose("kind", 5)
+func H_C02_filter_reuse() { hFilterReuse(vChoose("kind", 5)) }
+
+func hFilterReuse(kind int) {
 	vPQM, vPQNbits, vPQConcreteCB = 2, 1, true
 	u := vMakeIndexC(kind, L2Squared, 2, 2, false)
 	var ids []uint32
@@ -550,6 +551,9 @@ func H_C02_filter_reuse() {
 		ids = append(ids, id)
 		vAddBoth(u.idx, u.m, id, []float32{float32(i%5) + 0.5, float32(i/3) - 1.25})
 	}
+	// two more vectors with ids next to 40, so that restriction lists can repeat an id and straddle a live one
+	vAddBoth(u.idx, u.m, 41, []float32{1.5, 0.25})
+	vAddBoth(u.idx, u.m, 42, []float32{-1.5, 1.25})
 	q := vCopy([][]float32{{1.75, 0.5}, {-0.25, 2}}[vChoose("query", 2)])
 	k := vInt("k")
 	run := func(filt []uint32, label string) {
@@ -566,7 +570,8 @@ func H_C02_filter_reuse() {
 	big := append([]uint32{}, ids[vChoose("big_from", 2):9+2*vChoose("big_more", 2)]...)
 	big = append(big, 1000, 1001)
 	run(big, "large-restriction")
-	small := [][]uint32{{ids[3]}, {ids[11], ids[0]}, {ids[10], 1000, ids[5]}, {ids[1], ids[2], ids[9]}}[vChoose("small", 4)]
+	small := [][]uint32{{ids[3]}, {ids[11], ids[0]}, {ids[10], 1000, ids[5]}, {ids[1], ids[2], ids[9]},
+		{40, 40, 42}, {40, 42, 42}, {7, 10, 10, 13, 13, 13, 42}}[vChoose("small", 7)] // repeated ids, ascending, spanning live ids that are not listed
 	run(small, "small-restriction-after-large")
 	if vChoose("third", 2) == 1 {
 		run(ids[2:11], "large-restriction-after-small")
